@@ -7,6 +7,22 @@ from sklearn.metrics.pairwise import euclidean_distances
 
 from skmatter.metrics import pairwise_mahalanobis_distances as pmd
 from skmatter.metrics import periodic_pairwise_euclidean_distances as ppd
+from vf import lifecycle as _lc
+
+
+def _with_history(f):
+    """Every call the check makes is preceded by a call with the *same argument objects* (X, Y, cell) temporarily holding
+    other values (vf/lifecycle._Swap: overwritten in place, restored bit-exactly): the functions are stateless by contract, so
+    a result that depends on an earlier call (a cache keyed by id() or shape) shows up in the oracles below."""
+    def g(*a, **k):
+        if _lc.enabled():
+            with _lc._Swap(a, k) as s:
+                _lc._silently(f, *s.args, **s.kwargs)
+        return f(*a, **k)
+    return g
+
+
+ppd, pmd = _with_history(ppd), _with_history(pmd)
 from vf import gen
 
 ID = "C15"
